@@ -329,6 +329,22 @@ func runCompiled(c *C16Case, rec *bufio.Writer, tmp string, idx int) (res Result
 			out3a, err3a := e3.Render(alias, ctx)
 			check("compiled-loader-alias", out3a, err3a)
 		}
+		// a handle that has been superseded in the engine still compiles to what the handle holds
+		if hOld, err := e1.Load(name); err == nil {
+			e8 := twig.New()
+			e8.RegisterString(helperName, helper)
+			if err := e8.RegisterString(name, src); err == nil {
+				if h8, err := e8.Load(name); err == nil {
+					e8.RegisterString(name, "SUPERSEDED"+src)
+					if b8, err := h8.SaveCompiled(); err != nil {
+						fail("handle-save-compiled", err.Error(), "")
+					} else if c8, err := twig.DeserializeCompiledTemplate(b8); err != nil || c8.Source != src {
+						fail("handle-compiles-something-else", fmt.Sprintf("%v", err), "the handle's own source")
+					}
+				}
+			}
+			_ = hOld
+		}
 		// saving again after the template changed must replace the file at once
 		changed := "CHANGED" + src
 		if err := e1.RegisterString(name, changed); err == nil {
@@ -337,6 +353,19 @@ func runCompiled(c *C16Case, rec *bufio.Writer, tmp string, idx int) (res Result
 			} else if raw, err := os.ReadFile(filepath.Join(dir, name+".twig.compiled")); err == nil {
 				if fb, err := twig.DeserializeCompiledTemplate(raw); err != nil || fb.Source != changed {
 					fail("file-stale-after-resave", fmt.Sprintf("%v", err), "the changed source")
+				}
+			}
+		}
+		// ... also when the new source is shorter than the old one: the file holds the new template and nothing else
+		shorter := "S"
+		if err := e1.RegisterString(name, shorter); err == nil {
+			if err := cl.SaveCompiled(e1, name); err != nil {
+				fail("save-compiled-shorter", err.Error(), "")
+			} else {
+				e9 := twig.New()
+				e9.RegisterLoader(twig.NewCompiledLoader(dir))
+				if out9, err9 := e9.Render(name, ctx); err9 != nil || out9 != shorter {
+					fail("file-after-shorter-resave", fmt.Sprintf("%q %v", out9, err9), shorter)
 				}
 			}
 		}
